@@ -17,6 +17,7 @@ EXPLANATION = (
     'run so the zero-findings outcome is not vacuous.  Decides the property for the encoders\' own code under this '
     'model of which calls return fresh objects; lxml / ccg2lambda internals are not analysed.'
     ' Module-level objects of the printer modules (buffers, caches) may not be written to by any function, through local aliases either.'
+    ' Third round: the module-state rule also covers depccg/utils.py, tree.py, cat.py and types.py (a memo shared by normalize / denormalize).'
 )
 TRUSTED = ['CPython ast', 'sa/pysym.py path walker', 'alias model in sa/effects.py (shallow constructors, element-returning methods)']
 
@@ -148,58 +149,9 @@ def check(repo, rep, tier):
             rep.violation('R18.2', '%s:%s %s' % (mod.rel, g.lineno, qualname_of(fn)), '%s:%s:global' % (mod.rel, qualname_of(fn)),
                           'writes module state through `global %s`' % ', '.join(g.names))
     rep.floor('printer functions analysed', n, 35)
-    # module-level objects of the printers are shared by every rendering: none of them may be written to by a function
-    # (a reused buffer, a cache, a counter make the n-th rendering depend on the ones before it)
-    PURE_MAKERS = {'re.compile', 'frozenset', 'tuple', 'namedtuple', 'TypeVar', 'logging.getLogger', 'getLogger', 'str', 'int', 'float'}
-    WRITES = set(rp_MUTATORS) | {'write', 'writelines', 'seek', 'truncate', 'read', 'readline', 'add', 'discard', 'sort', 'reverse', 'close', 'flush'}
-    n_shared = 0
-    for rel in repo.py_files('depccg/printer'):
-        mod = repo.module(rel)
-        shared = {}
-        for st_ in mod.tree.body:
-            if isinstance(st_, (ast.Assign, ast.AnnAssign)) and st_.value is not None:
-                v = st_.value
-                is_obj = (isinstance(v, ast.Call) and src(v.func) not in PURE_MAKERS) or isinstance(v, (ast.List, ast.Dict, ast.Set, ast.ListComp, ast.DictComp, ast.SetComp))
-                if is_obj:
-                    for t in (st_.targets if isinstance(st_, ast.Assign) else [st_.target]):
-                        if isinstance(t, ast.Name):
-                            shared[t.id] = st_
-        n_shared += len(shared)
-        for fn in [f for f in ast.walk(mod.tree) if isinstance(f, ast.FunctionDef)]:
-            local = {a.arg for a in fn.args.args + fn.args.kwonlyargs} | {t.id for n_ in ast.walk(fn) if isinstance(n_, ast.Name) and isinstance(n_.ctx, ast.Store) for t in [n_]}
-            # local names that are just another name for a shared object
-            alias = {}
-            for _ in range(2):
-                for n_ in ast.walk(fn):
-                    if isinstance(n_, ast.Assign) and isinstance(n_.value, ast.Name) and \
-                            ((n_.value.id in shared and n_.value.id not in local) or n_.value.id in alias):
-                        for t in n_.targets:
-                            if isinstance(t, ast.Name):
-                                alias[t.id] = alias.get(n_.value.id, n_.value.id)
-                    if isinstance(n_, ast.With):
-                        for it in n_.items:
-                            if isinstance(it.context_expr, ast.Name) and it.context_expr.id in shared and isinstance(it.optional_vars, ast.Name):
-                                alias[it.optional_vars.id] = it.context_expr.id
-            shared_here = dict(shared)
-            for a_, b_ in alias.items():
-                shared_here[a_] = shared[b_]
-            local = local - set(alias)
-            for n_ in ast.walk(fn):
-                hit = None
-                if isinstance(n_, ast.Call) and isinstance(n_.func, ast.Attribute) and isinstance(n_.func.value, ast.Name) \
-                        and n_.func.value.id in shared_here and n_.func.value.id not in local and n_.func.attr in WRITES:
-                    hit = (n_.func.value.id, '.%s()' % n_.func.attr)
-                if isinstance(n_, ast.Call):
-                    for kw in n_.keywords:
-                        if kw.arg == 'file' and isinstance(kw.value, ast.Name) and kw.value.id in shared_here and kw.value.id not in local:
-                            hit = (kw.value.id, 'written to through file=')
-                if isinstance(n_, (ast.Subscript, ast.Attribute)) and isinstance(n_.ctx, (ast.Store, ast.Del)) and isinstance(n_.value, ast.Name) \
-                        and n_.value.id in shared_here and n_.value.id not in local:
-                    hit = (n_.value.id, 'item / attribute assigned')
-                if hit:
-                    rep.violation('R18.2', '%s:%s %s' % (rel, n_.lineno, qualname_of(fn)), '%s:%s:module-state:%s' % (rel, qualname_of(fn), hit[0]),
-                                  '%s writes to the module-level object `%s` (%s): it is shared by all renderings, so a rendering depends on those before it'
-                                  % (qualname_of(fn), hit[0], hit[1]))
+    from ..lints import r_module_state
+    n_shared = r_module_state(repo, rep, 'R18.2', repo.py_files('depccg/printer') + ['depccg/utils.py', 'depccg/tree.py', 'depccg/cat.py', 'depccg/types.py'],
+                              'it is shared by all renderings, so a rendering depends on those before it')
     rep.ok('R18.2', 'depccg/printer/*', 'no printer function writes to one of the %d module-level objects of the printer modules' % n_shared, nontrivial=n_shared > 0)
     # Tree accessors
     tm = repo.module('depccg/tree.py')
